@@ -307,7 +307,13 @@ def make_data(g, ps, n, zeros=False):
         p = np.clip(p, 0, None); p = p / p.sum()
         base = n if not zeros else min(n, 4)
         nn = max(2, base * factors[(j + rot) % len(factors)]) if not zeros else max(2, base + (j + rot) % 4)
-        data.append((nn, g.multinomial(nn, p) / nn))
+        # the shot count arrives as a Python int, an np.int64 (e.g. counts.sum(); also several million shots) or an np.int32
+        ty = (j + rot) % 3
+        if not zeros and ty == 1:
+            nn = np.int64(nn * 60000 if j % 2 == 0 else nn)
+        elif not zeros and ty == 2:
+            nn = np.int32(max(int(nn), 1500))
+        data.append((nn, g.multinomial(int(nn), p) / int(nn)))
     return data
 
 
@@ -889,6 +895,33 @@ def check_conf(ctx, kind, flag, m, salt):
                 ctx.violate(f"C12/wre/{name}/custom/raises", f"{type(e).__name__}: {e}", rep); continue
             if not close(v, ref, 1e-8):
                 ctx.violate("C12/wre/custom-weights-ignored", f"{name} relative entropy configured with custom weights {wopt}: value {v} vs Σ w_j D(q_j‖p_j) = {ref}", rep)
+    # --- (4z) one loss object configured for this tomography, then for one with ANOTHER number of variables (flag flipped)
+    qt_o, true_o, testers_o = build_m(ctx.npgen(salt + 9000), kind, not flag, m)
+    if qt_o.num_variables != nv:
+        nvo = qt_o.num_variables
+        data_o = make_data(g, qt_o.calc_prob_dists(true_o), 40)
+        xo_ = positive_point(g, qt_o, true_o)
+        Ao, bo = qt_o.calc_matA(), qt_o.calc_vecB()
+        qo = np.concatenate([d[1] for d in data_o])
+        for lname, cls, ocls, gref in (("wse", WSE, WSEO, 2 * Ao.T @ (Ao @ xo_ + bo - qo)),
+                                       ("fast-wse", FWSE, FWSEO, 2 * Ao.T @ (Ao @ xo_ + bo - qo)),
+                                       ("wre", WRE, WREO, -(Ao.T @ (qo / (Ao @ xo_ + bo)))),
+                                       ("fast-wre", FWRE, FWREO, -(Ao.T @ (qo / (Ao @ xo_ + bo))))):
+            if lname.endswith("wre") and float((Ao @ xo_ + bo).min()) <= 0.02:
+                continue
+            l = cls(nv)
+            l.set_from_standard_qtomography_option_data(qt, ocls("identity"), data, True, not lname.startswith("fast"))
+            l.set_from_standard_qtomography_option_data(qt_o, ocls("identity"), data_o, True, not lname.startswith("fast"))
+            try:
+                gr = np.asarray(l.gradient(xo_))
+                hs = None if lname.startswith("fast") or nvo > 16 else np.asarray(l.hessian(xo_))
+            except Exception as e:  # noqa
+                ctx.violate(f"C12/{lname}/reconfigure/other-num-variables/raises", f"{tag}: {nv} → {nvo} variables: {type(e).__name__}: {e}", rep)
+                continue
+            if gr.shape != (nvo,) or not np.allclose(gr, gref, rtol=1e-8, atol=1e-10) or (hs is not None and hs.shape != (nvo, nvo)):
+                ctx.violate(f"C12/{lname}/reconfigure/other-num-variables",
+                            f"{tag}: loss configured for {nv} variables, then for a tomography with {nvo}: gradient shape {gr.shape}"
+                            f"{'' if hs is None else ', Hessian shape ' + str(hs.shape)} (num_var {l.num_var})", rep)
     # --- (4a) re-configuration of one object with new data (cached q must follow)
     data2 = make_data(g, ps, 45, zeros=not bool(salt % 2))
     qs2 = [d[1] for d in data2]
@@ -957,6 +990,52 @@ def alias_check(ctx, name, loss, x, rep, hess=True):
                         f"{meth}() after an in-place edit of the previous result differs by {np.abs(r2 - keep).max():.3e}", rep)
 
 
+def check_callables(ctx, salt):
+    """generic losses built from USER callables with non-zero second derivatives (quadratic models
+    p_i(x) = a_i + B_i·x + ½ xᵀC_i x with exact gradient / Hessian callables): gradient and Hessian vs central differences"""
+    g = ctx.npgen(salt)
+    for t in range(3):
+        nv, S = int(g.integers(2, 4)), int(g.integers(1, 3))
+        ms = [int(g.integers(2, 5)) for _ in range(S)]
+        rep = {"kind": "callables", "salt": salt}
+        models = []
+        for m_ in ms:
+            a = g.dirichlet(np.ones(m_) * 3)
+            B = qobj.dyadic(g, (m_, nv), 6, 0.2); B -= B.mean(axis=0)
+            C = qobj.dyadic(g, (m_, nv, nv), 6, 0.3); C = (C + C.transpose(0, 2, 1)) / 2; C -= C.mean(axis=0)
+            models.append((a, B, C))
+
+        def mk(j):
+            a, B, C = models[j]
+            return (lambda x: a + B @ x + 0.5 * np.einsum("iab,a,b->i", C, x, x),
+                    lambda al, x: B[:, al] + C[:, al, :] @ x,
+                    lambda al, be, x: C[:, al, be].copy())
+        fs = [mk(j) for j in range(S)]
+        x = qobj.dyadic(g, (nv,), 8, 0.2)
+        qs = [g.multinomial(40, np.clip(f[0](x), 0.02, None) / np.clip(f[0](x), 0.02, None).sum()) / 40 for f in fs]
+        if min(float(f[0](x).min()) for f in fs) < 0.03:
+            continue
+        ctx.case(("callables", salt, t), sample={"op": "user-callable model", "outcomes": ms, "num_var": nv})
+        Ws = [sym_weights(g, 1, m_, "sym")[0] for m_ in ms]
+        wv = [float(v) for v in g.integers(1, 5, size=S)]
+        losses = [("wse", WSE(nv, [f[0] for f in fs], [f[1] for f in fs], [f[2] for f in fs], qs, None)),
+                  ("wse-weighted", WSE(nv, [f[0] for f in fs], [f[1] for f in fs], [f[2] for f in fs], qs, Ws)),
+                  ("wre", WRE(nv, [f[0] for f in fs], [f[1] for f in fs], [f[2] for f in fs], qs, None)),
+                  ("wre-weighted", WRE(nv, [f[0] for f in fs], [f[1] for f in fs], [f[2] for f in fs], qs, wv))]
+        eps = 1e-5
+        for name, l in losses:
+            gr, H = l.gradient(x), l.hessian(x)
+            for dvec in (qobj.dyadic(g, (nv,), 6, 1.0) for _ in range(2)):
+                dvec = dvec / max(1.0, np.abs(dvec).max())
+                cd = (l.value(x + eps * dvec) - l.value(x - eps * dvec)) / (2 * eps)
+                cdg = (l.gradient(x + eps * dvec) - l.gradient(x - eps * dvec)) / (2 * eps)
+                if abs(cd - gr @ dvec) > 1e-6 * max(1.0, abs(cd)):
+                    ctx.violate(f"C12/{name}/user-callables/gradient", f"directional derivative {gr @ dvec} vs central difference {cd}", rep); break
+                if not np.allclose(cdg, H @ dvec, rtol=1e-5, atol=1e-6 * max(1.0, np.abs(cdg).max())):
+                    ctx.violate(f"C12/{name}/user-callables/hessian",
+                                f"H·d vs central difference of the gradient: max diff {np.abs(cdg - H @ dvec).max():.3e} (model with curvature)", rep); break
+
+
 def check_simple(ctx, salt):
     g = ctx.npgen(salt)
     for t in range(5):
@@ -991,6 +1070,7 @@ def oracle(ctx, volume=1):
         ctx.count(f"oracle {kind} flag={flag} m={m}")
         guarded(ctx, check_conf, ctx, kind, flag, m, salt)
     guarded(ctx, check_simple, ctx, 499)
+    guarded(ctx, check_callables, ctx, 498)
 
 
 def search(ctx):
@@ -1007,7 +1087,9 @@ def replay(ctx, data):
         for v in ctx.violations[before:]:
             print(" ", v["signature"], "-", v["what"])
         return 1 if len(ctx.violations) > before else 0
-    if r["kind"] == "conf":
+    if r["kind"] == "callables":
+        check_callables(ctx, r["salt"])
+    elif r["kind"] == "conf":
         check_conf(ctx, r["tomo"], r["flag"], r["m"], r["salt"])
     else:
         check_simple(ctx, r["salt"])
